@@ -22,6 +22,10 @@ def gen_classes(rng, malformed=False):
         cid = f'K{i}'
         group = rng.choice(['', '', 'g', 'g:h', 'n', 'train'])
         name = rng.choice([f't{i}'] * 6 + ['t', 't0', 'train_x', 't_task'])   # collisions on purpose (an explicit name keeps a trailing `_task`)
+        if any(slug(c_) == slug({'group': group, 'name': name}) for c_ in classes.values()):
+            # (equal SHORT names are wanted; two classes with one FULL name in one spec are not: which of them a config that lists both ends
+            #  up with, and where it then sits in the order of the chain, is outside the builder model)
+            name = f't{i}'
         params = []
         for pn in rng.sample(['x', 'y', 'z', 'w'], rng.randint(0, 3)):
             p = {'name': pn}
